@@ -9,9 +9,10 @@ condition, `spur`, notify picks from `sched`).  Threads `1 … n` are the pool's
 Where a thread stands:
 * worker: `wTest` (at `MUDUO_VERIF_POINT` before the **unlocked** read of `running_` in
   `while (running_)`), `wTake` (in `take()`: at the lock statement, or in `W`/`S` of `notEmpty_`),
-  `wExec x` (`take()` returned task `x`; `task()` not yet called), `wDone` (left the loop);
+  `wExec x` (`take()` returned task `x`; `task()` not yet called), `wGate x` (inside `task()` of a task that
+  waits for the gate), `wDone` (left the loop);
 * caller: `idle` (at the head of `prog`: `run` = the `threads_.empty()` test / the lock statement /
-  parked on `notFull_`; `stop` = its lock statement), `stopNotify` (holds the mutex, `running_ = false`
+  parked on `notFull_`; `stop` = its lock statement; `open` = about to open the gate), `stopNotify` (holds the mutex, `running_ = false`
   done, the two `notifyAll` not yet), `stopJoin i` (in `threads_[i]->join()`).
 
 `stop()`'s flag store and its broadcasts are separate steps so that the unlocked read of `running_` by
@@ -24,6 +25,15 @@ open MuduoVerif.Generated.Monitor
 
 inductive POp where
   | run (id : Nat) | stop
+  /-- the caller opens the gate (see `TKind`) -/
+  | open
+  deriving DecidableEq, Repr
+
+/-- what a task does when a worker calls it.  Tasks may depend on one another through one *gate* (closed at
+first, open for ever once opened): a `waits` task blocks inside `task()` until the gate is open, an `opens`
+task opens it.  The kind is a function of the task's id; a pool without threads ignores it. -/
+inductive TKind where
+  | plain | waits | opens
   deriving DecidableEq, Repr
 
 /-- a queued task: (serial number, id) -/
@@ -31,7 +41,7 @@ abbrev Task := Nat × Nat
 
 inductive PPc where
   | idle | stopNotify | stopJoin (i : Nat)
-  | wTest | wTake | wExec (x : Task) | wDone
+  | wTest | wTake | wExec (x : Task) | wGate (x : Task) | wDone
   deriving DecidableEq, Repr
 
 inductive PEv where
@@ -42,6 +52,8 @@ inductive PEv where
   | runRet (t : Nat) (id : Nat)
   | stopFlag (t : Nat)               -- `running_ = false`
   | stopRet (t : Nat)
+  | pass (w : Nat) (x : Task)        -- a `waits` task found the gate open and returned
+  | openRet (t : Nat)                -- a caller opened the gate
   deriving DecidableEq, Repr
 
 structure PState extends Mon where
@@ -56,6 +68,10 @@ structure PState extends Mon where
   pc : Nat → PPc
   prog : Nat → List POp
   log : List PEv
+  /-- what the task with a given id does -/
+  kind : Nat → TKind
+  /-- the gate is open -/
+  gate : Bool
 
 namespace PState
 
@@ -97,6 +113,13 @@ def takeBody (s : PState) (t : Nat) : PState :=
         if s1.g pool_take_g3 then s2.notifs (notifsOf pool_take) else s2
     else { s1 with owner := none, pc := upd s1.pc t .wTest }
 
+/-- a worker calls `task()`: a `waits` task stays inside it (`wGate`) until the gate is open -/
+def startTask (s : PState) (t : Nat) (x : Task) : PState :=
+  match s.kind x.2 with
+  | .plain => { s with pc := upd s.pc t .wTest, log := s.log ++ [.exec t x] }
+  | .waits => { s with pc := upd s.pc t (.wGate x), log := s.log ++ [.exec t x] }
+  | .opens => { s with gate := true, pc := upd s.pc t .wTest, log := s.log ++ [.exec t x] }
+
 /-- `stop()` after the last join (or at once when there are no threads) -/
 def stopDone (s : PState) (t : Nat) : PState :=
   s.ret t (s.prog t).tail [.stopRet t]
@@ -108,6 +131,7 @@ def needsLock (s : PState) (t : Nat) : Bool :=
   | .idle => match s.prog t with
     | .run _ :: _ => !s.inline
     | .stop :: _ => true
+    | .open :: _ => false
     | [] => false
   | _ => false
 
@@ -122,8 +146,10 @@ def pstep (s : PState) : Act → Option PState
       some (if s.g pool_runInThread_g2 then { s with pc := upd s.pc t .wTake } else { s with pc := upd s.pc t .wDone })
     | .wTake => if s.owner = some t then some (s.takeBody t) else none
     | .wExec x =>
-      some (if s.g pool_runInThread_g3 (taskValid := true) then { s with pc := upd s.pc t .wTest, log := s.log ++ [.exec t x] }
+      some (if s.g pool_runInThread_g3 (taskValid := true) then s.startTask t x
             else { s with pc := upd s.pc t .wTest })
+    | .wGate x =>
+      if s.gate = true then some { s with pc := upd s.pc t .wTest, log := s.log ++ [.pass t x] } else none
     | .wDone => none
     | .idle =>
       match s.prog t with
@@ -135,6 +161,7 @@ def pstep (s : PState) : Act → Option PState
         if s.owner = some t then
           some { s with running := false, pc := upd s.pc t .stopNotify, log := s.log ++ [.stopFlag t] }
         else none
+      | .open :: rest => some (({ s with gate := true } : PState).ret t rest [.openRet t])
     | .stopNotify =>
       if s.owner = some t then
         let s1 : PState := ({ s with owner := none } : PState).notifs (notifsOf pool_stop)
@@ -147,12 +174,13 @@ def pstep (s : PState) : Act → Option PState
   | .spur t c =>
     if t ∈ (s.ws c).W then some { s with toMon := s.toMon.setWs c ((s.ws c).spur t) } else none
 
-/-- a pool started with `n` threads and `setMaxQueueSize(maxq)`; callers run `prog` -/
-def pinit (n maxq : Nat) (prog : Nat → List POp) (sched : List Nat) : PState :=
+/-- a pool started with `n` threads and `setMaxQueueSize(maxq)`; callers run `prog`; task `id` is of kind
+`kind id`; the gate is closed -/
+def pinit (n maxq : Nat) (kind : Nat → TKind) (prog : Nat → List POp) (sched : List Nat) : PState :=
   { toMon := Mon.init sched, n := n, maxq := maxq, running := true, q := [], nacc := 0,
     pc := fun t => if 1 ≤ t ∧ t ≤ n then .wTest else .idle,
     prog := fun t => if 1 ≤ t ∧ t ≤ n then [] else prog t,
-    log := [] }
+    log := [], kind := kind, gate := false }
 
 inductive PReach (s0 : PState) : PState → Prop where
   | refl : PReach s0 s0
